@@ -78,13 +78,13 @@ pub fn c02_value_datetime(inp: &mut Inp) {
 pub fn c02_value_resolution(inp: &mut Inp) {
     value_total(inp, 0x32, 12)
 }
-//@ {"tier":"quick","unwind":14,"desc":"IppValue::parse(0x35 textWithLanguage): every length 0..=6, every body incl. both inner 16-bit lengths","sym":"6 body bytes incl. the two inner length fields; len enumerated 0..=10"}
+//@ {"tier":"quick","unwind":14,"stubs":["lossy_empty","drop_even","drop_odd","bm"],"desc":"IppValue::parse(0x35 textWithLanguage): every length 0..=8, every body incl. both inner 16-bit lengths","sym":"8 body bytes incl. the two inner length fields; len enumerated 0..=10"}
 pub fn c02_value_textlang(inp: &mut Inp) {
-    value_total_lang(inp, 0x35, 6)
+    value_total_lang(inp, 0x35, 8)
 }
-//@ {"tier":"quick","unwind":14,"desc":"IppValue::parse(0x36 nameWithLanguage): every length 0..=6, every body incl. both inner 16-bit lengths","sym":"6 body bytes incl. the two inner length fields; len enumerated 0..=10"}
+//@ {"tier":"quick","unwind":14,"stubs":["lossy_empty","drop_even","drop_odd","bm"],"desc":"IppValue::parse(0x36 nameWithLanguage): every length 0..=8, every body incl. both inner 16-bit lengths","sym":"8 body bytes incl. the two inner length fields; len enumerated 0..=10"}
 pub fn c02_value_namelang(inp: &mut Inp) {
-    value_total_lang(inp, 0x36, 6)
+    value_total_lang(inp, 0x36, 8)
 }
 
 //@ {"tier":"thorough","unwind":14,"desc":"IppValue::parse for EVERY other tag byte 0x00..=0xff (strings, out-of-band, collection markers, unregistered): every length 0..=6, every body","sym":"tag byte (all 256 minus the 8 structured ones, which have their own harness), 6 body bytes; len enumerated 0..=6"}
@@ -92,4 +92,42 @@ pub fn c02_value_anytag(inp: &mut Inp) {
     let tag = inp.u8();
     assume(tag != 0x21 && tag != 0x23 && tag != 0x22 && tag != 0x33 && tag != 0x31 && tag != 0x32 && tag != 0x35 && tag != 0x36);
     value_total_lang(inp, tag, 6)
+}
+
+fn parse_fixed(inp: &mut Inp, tail: &[u8]) -> bool {
+    use std::io::Cursor;
+    let mut v = Vec::with_capacity(64);
+    let mut k = 0;
+    while k < 8 {
+        v.push(inp.u8());
+        k += 1;
+    }
+    v.extend_from_slice(tail);
+    let w = leak_vec(v);
+    let r = ipp::parser::IppParser::new(ipp::reader::IppReader::new(Cursor::new(w))).parse();
+    let ok = r.is_ok();
+    core::mem::forget(r);
+    ok
+}
+
+//@ {"tier":"quick","unwind":3,"mem":28,"stubs":["lossy_ascii","drop_even","drop_odd","bm","block_on"],"desc":"malformed but token-wise valid message never panics: a collection opened and never closed before the end tag","sym":"8 header bytes"}
+pub fn c02_malformed_unclosed_collection(inp: &mut Inp) {
+    // printer group, begCollection "c" (empty value), end of attributes
+    parse_fixed(inp, &[0x04, 0x34, 0, 1, b'c', 0, 0, 0x03]);
+    reached();
+}
+
+//@ {"tier":"quick","unwind":3,"stubs":["lossy_ascii","drop_even","drop_odd","bm","block_on"],"desc":"malformed: additional value (empty name) before any attribute and before any group","sym":"8 header bytes"}
+pub fn c02_malformed_orphan_value(inp: &mut Inp) {
+    parse_fixed(inp, &[0x21, 0, 0, 0, 4, 0, 0, 0, 3, 0x03]);
+    reached();
+}
+
+//@ {"tier":"thorough","unwind":3,"stubs":["lossy_ascii","drop_even","drop_odd","bm","block_on"],"desc":"malformed: end-collection without begin; member name outside a collection; collection never closed before another attribute / a new group","sym":"8 header bytes; 4 malformed token sequences enumerated"}
+pub fn c02_malformed_more(inp: &mut Inp) {
+    parse_fixed(inp, &[0x04, 0x37, 0, 0, 0, 0, 0x03]);
+    parse_fixed(inp, &[0x04, 0x4a, 0, 0, 0, 1, b'm', 0x21, 0, 0, 0, 4, 0, 0, 0, 2, 0x03]);
+    parse_fixed(inp, &[0x04, 0x34, 0, 1, b'c', 0, 0, 0x21, 0, 1, b'i', 0, 4, 0, 0, 0, 1, 0x03]);
+    parse_fixed(inp, &[0x04, 0x34, 0, 1, b'c', 0, 0, 0x02, 0x03]);
+    reached();
 }
